@@ -392,6 +392,623 @@ theorem matchOne_spec (s : PState) (want : String) :
   unfold matchOne
   simp only [abs, ← h, absW_failAt, envOf_failAt, envOf_read, sliceFrom, Spec.slice, failAt.pt]
 
+
+theorem ref_runCodeBlock (blk : Nat) (s : PState) (k : BlockResult → PState → Outcome)
+    (sk : BlockResult → Spec.World → Spec.Res)
+    (hk : ∀ r s2, ctxOf s2 = ctxOf s → envOf s2 = envOf s → s2.pt = s.pt → abs (k r s2) = sk r (absW s2)) :
+    abs (runCodeBlock E blk s k) =
+      (match (Spec.call E blk (envOf s) s.pt (absW s)).1.panic with
+       | some p => .panic p (Spec.call E blk (envOf s) s.pt (absW s)).2
+       | none => sk (Spec.call E blk (envOf s) s.pt (absW s)).1
+          (Spec.addErrAt E (ctxOf s) (Spec.call E blk (envOf s) s.pt (absW s)).2
+            (Spec.call E blk (envOf s) s.pt (absW s)).1.err s.pt.pos)) := by
+  unfold runCodeBlock
+  simp only []
+  obtain ⟨hr, hw⟩ := callBlock_spec (E := E) blk s
+  rw [← hr, ← hw]
+  cases (callBlock E blk s).1.panic with
+  | some p => simp [abs]
+  | none =>
+    simp only []
+    rw [hk _ _ ((ctxOf_eq (by simp) (by simp)).trans (ctxOf_callBlock (E := E) blk s)) (by simp) (by simp), absW_addErrOpt]
+    simp
+
+theorem ref_andCode (k id blk : Nat) (s : PState) :
+    abs (parseAndCode E blk s) = Spec.evalStep E srec k (ctxOf s) (.andCode id blk) (envOf s) s.pt (absW s) := by
+  unfold parseAndCode
+  rw [ref_runCodeBlock blk s _
+    (fun r w => if r.retB then .ok .nil s.pt (envOf s) (Spec.rollback E w s.state) else .fail (envOf s) (Spec.rollback E w s.state))]
+  · simp only [Spec.evalStep]; rfl
+  · intro r s2 _ he hpt
+    cases r.retB <;> simp [abs, absW_restoreState, he, hpt]
+
+theorem ref_notCode (k id blk : Nat) (s : PState) :
+    abs (parseNotCode E blk s) = Spec.evalStep E srec k (ctxOf s) (.notCode id blk) (envOf s) s.pt (absW s) := by
+  unfold parseNotCode
+  rw [ref_runCodeBlock blk s _
+    (fun r w => if !r.retB then .ok .nil s.pt (envOf s) (Spec.rollback E w s.state) else .fail (envOf s) (Spec.rollback E w s.state))]
+  · simp only [Spec.evalStep]; rfl
+  · intro r s2 _ he hpt
+    cases r.retB <;> simp [abs, absW_restoreState, he, hpt]
+
+theorem ref_stateCode (k id blk : Nat) (s : PState) :
+    abs (parseStateCode E blk s) = Spec.evalStep E srec k (ctxOf s) (.stateCode id blk) (envOf s) s.pt (absW s) := by
+  unfold parseStateCode
+  simp only [Spec.evalStep]
+  by_cases hu : E.useState = true
+  · simp only [hu, Bool.not_true, Bool.false_eq_true, if_false]
+    rw [ref_runCodeBlock blk s _ (fun r w => .ok .nil s.pt (envOf s) w)]
+    · rfl
+    · intro r s2 _ he hpt; simp [abs, he, hpt]
+  · simp [hu, abs]
+
+
+theorem ref_any (k id : Nat) (s : PState) :
+    abs (parseAny E s) = Spec.evalStep E srec k (ctxOf s) (.any id) (envOf s) s.pt (absW s) := by
+  unfold parseAny
+  simp only [Spec.evalStep, Spec.atEOF]
+  by_cases h : (s.pt.rn = runeError && s.pt.w = 0) = true
+  · simp only [h, if_true]; simp [abs]
+  · simp only [h, if_false, Bool.false_eq_true]
+    rw [matchOne_spec]
+
+theorem ref_cls (k id : Nat) (cd : ClassDesc) (s : PState) :
+    abs (parseCharClass E cd s) = Spec.evalStep E srec k (ctxOf s) (.cls id cd) (envOf s) s.pt (absW s) := by
+  unfold parseCharClass
+  simp only [Spec.evalStep, Spec.atEOF]
+  by_cases hb : (E.flags.basicLatin && decide (s.pt.rn < 128)) = true
+  · simp only [hb, if_true]
+    by_cases hm : (cd.basicLatin.getD s.pt.rn false != cd.inverted) = true
+    · simp only [hm, if_true]; rw [matchOne_spec]
+    · simp only [hm, if_false, Bool.false_eq_true]; simp [abs]
+  · simp only [hb, if_false, Bool.false_eq_true]
+    by_cases he : (s.pt.rn = runeError && s.pt.w = 0) = true
+    · simp only [he, if_true]; simp [abs]
+    · simp only [he, if_false, Bool.false_eq_true, Bool.not_false, Bool.true_and]
+      by_cases hm : (classContains E cd s.pt.rn != cd.inverted) = true
+      · simp only [hm, if_true]; rw [matchOne_spec]
+      · simp only [hm, if_false, Bool.false_eq_true]; simp [abs]
+
+
+theorem restore_pt (s' : PState) (pt : Savepoint) (h1 : Reach E.input s'.pt) (h2 : Reach E.input pt) :
+    (restore s' pt).pt = pt := by
+  unfold restore; split
+  · rename_i h; exact Reach.unique h1 h2 h.symm
+  · rfl
+
+theorem ref_and (hp : Plain E) (hfr : ∀ e s, FrameInv E s (rec e s)) (href : Refines E rec srec)
+    (k id : Nat) (e1 : Expr) (s : PState) (hg : Good E s) :
+    abs (parseAnd E rec e1 s) = Spec.evalStep E srec k (ctxOf s) (.and id e1) (envOf s) s.pt (absW s) := by
+  unfold parseAnd
+  simp only [Spec.evalStep]
+  have hcf := call_facts hp hfr href e1 (pushV s) hg.pushV
+  revert hcf
+  generalize parseExprWrap E rec e1 (pushV s) = o
+  cases o with
+  | oof => intro h; simp only [CallFacts, ctxOf_pushV, envOf_pushV, absW_pushV, pushV.pt] at h; simp [Outcome.bind, abs, h]
+  | panic p s1 => intro h; simp only [CallFacts, ctxOf_pushV, envOf_pushV, absW_pushV, pushV.pt] at h; simp [Outcome.bind, abs, h]
+  | done v ok s1 =>
+    have he : ∀ (h2 : Framed E (RT.pushV s) ok s1),
+        envOf (restore (RT.restoreState E (popV s1) s.state) s.pt) = envOf s := by
+      intro h2; rw [← envOf_pop h2]; simp [envOf]
+    have hpt : Good E s1 → (restore (RT.restoreState E (popV s1) s.state) s.pt).pt = s.pt :=
+      fun h3 => restore_pt _ _ (by simpa using h3.ptinv.1) hg.ptinv.1
+    cases ok with
+    | true =>
+      intro ⟨h1, h2, h3⟩
+      simp only [ctxOf_pushV, envOf_pushV, absW_pushV, pushV.pt] at h1
+      simp only [Outcome.bind, h1, abs, he h2, hpt h3, absW_restore, absW_restoreState, absW_popV]
+      rfl
+    | false =>
+      intro ⟨h1, h2, _, _⟩
+      simp only [ctxOf_pushV, envOf_pushV, absW_pushV, pushV.pt] at h1
+      simp only [Outcome.bind, h1, abs, he h2, absW_restore, absW_restoreState, absW_popV]
+      rfl
+
+theorem ref_not (hp : Plain E) (hfr : ∀ e s, FrameInv E s (rec e s)) (href : Refines E rec srec)
+    (k id : Nat) (e1 : Expr) (s : PState) (hg : Good E s) :
+    abs (parseNot E rec e1 s) = Spec.evalStep E srec k (ctxOf s) (.not id e1) (envOf s) s.pt (absW s) := by
+  unfold parseNot
+  simp only [Spec.evalStep]
+  have hg' : Good E { pushV s with maxFailInvert := !s.maxFailInvert } := hg.pushV.congr rfl rfl rfl
+  have hcf := call_facts hp hfr href e1 _ hg'
+  revert hcf
+  generalize hs0 : ({ pushV s with maxFailInvert := !s.maxFailInvert } : PState) = s0
+  have e1' : ctxOf s0 = ctxOf s := by subst hs0; rfl
+  have e2' : envOf s0 = [] := by subst hs0; rfl
+  have e3' : absW s0 = absW s := by subst hs0; rfl
+  have e4' : s0.pt = s.pt := by subst hs0; rfl
+  have e5' : s0.vstack = (pushV s).vstack := by subst hs0; rfl
+  generalize parseExprWrap E rec e1 s0 = o
+  cases o with
+  | oof => intro h; simp only [CallFacts, e1', e2', e3', e4'] at h; simp [Outcome.bind, abs, h]
+  | panic p s1 => intro h; simp only [CallFacts, e1', e2', e3', e4'] at h; simp [Outcome.bind, abs, h]
+  | done v ok s1 =>
+    have he : ∀ (h2 : Framed E s0 ok s1),
+        envOf (restore (RT.restoreState E (popV { s1 with maxFailInvert := !s1.maxFailInvert }) s.state) s.pt) = envOf s := by
+      intro h2
+      have hv : s1.vstack.tail = s.vstack := by
+        have := h2.stk.vtail; rw [e5'] at this; simpa [pushV] using this
+      rw [envOf_restore, envOf_restoreState]
+      show (s1.vstack.tail).headD [] = _
+      rw [hv]; rfl
+    have hpt : Good E s1 → (restore (RT.restoreState E (popV { s1 with maxFailInvert := !s1.maxFailInvert }) s.state) s.pt).pt = s.pt :=
+      fun h3 => restore_pt _ _ (by simpa using h3.ptinv.1) hg.ptinv.1
+    cases ok with
+    | true =>
+      intro ⟨h1, h2, _⟩
+      simp only [e1', e2', e3', e4'] at h1
+      simp only [Outcome.bind, h1, abs, he h2, absW_restore, absW_restoreState, absW_popV, Bool.not_true]
+      rfl
+    | false =>
+      intro ⟨h1, h2, h3, _⟩
+      simp only [e1', e2', e3', e4'] at h1
+      simp only [Outcome.bind, h1, abs, he h2, hpt h3, absW_restore, absW_restoreState, absW_popV, Bool.not_false]
+      rfl
+
+
+theorem envOf_setLabel {s : PState} (l : String) (v : Val) (h : s.vstack ≠ []) :
+    envOf (setLabel s l v) = (l, v) :: envOf s := by
+  unfold setLabel envOf
+  cases hv : s.vstack with
+  | nil => exact absurd hv h
+  | cons m rest => simp
+
+theorem ref_labeled (hp : Plain E) (hfr : ∀ e s, FrameInv E s (rec e s)) (href : Refines E rec srec)
+    (k id : Nat) (l : String) (e1 : Expr) (s : PState) (hg : Good E s) :
+    abs (parseLabeled E rec l e1 s) = Spec.evalStep E srec k (ctxOf s) (.labeled id l e1) (envOf s) s.pt (absW s) := by
+  unfold parseLabeled
+  simp only [Spec.evalStep]
+  have hcf := call_facts hp hfr href e1 (pushV s) hg.pushV
+  revert hcf
+  generalize parseExprWrap E rec e1 (pushV s) = o
+  cases o with
+  | oof => intro h; simp only [CallFacts, ctxOf_pushV, envOf_pushV, absW_pushV, pushV.pt] at h; simp [Outcome.bind, abs, h]
+  | panic p s1 => intro h; simp only [CallFacts, ctxOf_pushV, envOf_pushV, absW_pushV, pushV.pt] at h; simp [Outcome.bind, abs, h]
+  | done v ok s1 =>
+    cases ok with
+    | true =>
+      intro ⟨h1, h2, _⟩
+      simp only [ctxOf_pushV, envOf_pushV, absW_pushV, pushV.pt] at h1
+      simp only [Outcome.bind, h1, Bool.true_and]
+      by_cases hl : l = ""
+      · simp [hl, abs, envOf_pop h2]
+      · simp only [hl, ne_eq, not_false_eq_true, decide_true, if_true, abs,
+          envOf_setLabel l v (hg.pop h2).vne, envOf_pop h2]
+        simp
+    | false =>
+      intro ⟨h1, h2, _, _⟩
+      simp only [ctxOf_pushV, envOf_pushV, absW_pushV, pushV.pt] at h1
+      simp [Outcome.bind, h1, abs, envOf_pop h2]
+
+/-! ### a failed expression yields the nil value (plain configuration) -/
+
+def _root_.PV.Outcome.NilFail : Outcome → Prop
+  | .done v false _ => v = .nil
+  | _ => True
+
+theorem NilFail.bind {o : Outcome} {f : Val → Bool → PState → Outcome} (ho : o.NilFail)
+    (hf : ∀ v ok s, (ok = false → v = .nil) → (f v ok s).NilFail) : (o.bind f).NilFail := by
+  cases o with
+  | oof => trivial
+  | panic p s => trivial
+  | done v ok s =>
+    cases ok with
+    | true => exact hf v true s (fun h => by cases h)
+    | false => exact hf v false s (fun _ => ho)
+
+section nilfail
+variable (hmz : E.opts.memoize = false) (hnf : ∀ e s, (rec e s).NilFail)
+include hmz hnf
+
+theorem wrap_nilfail (e : Expr) (s : PState) : (parseExprWrap E rec e s).NilFail := by
+  rw [wrap_eq hmz]; exact hnf e s
+
+theorem seq_nilfail (pt : Savepoint) (st : Store) : ∀ (es : List Expr) (s : PState) (acc : List Val),
+    (parseSeq E rec pt st es s acc).NilFail
+  | [], _, _ => by simp [parseSeq, Outcome.NilFail]
+  | e :: es, s, acc => by
+    unfold parseSeq
+    apply NilFail.bind (wrap_nilfail hmz hnf e s)
+    intro v ok s1 _
+    cases ok with
+    | true => simp only [if_true]; exact seq_nilfail pt st es s1 _
+    | false => simp [Outcome.NilFail]
+
+theorem choice_nilfail (line col : Nat) : ∀ (alts : List Expr) (i : Nat) (s : PState),
+    (parseChoice E rec line col alts i s).NilFail
+  | [], _, _ => by simp [parseChoice, Outcome.NilFail]
+  | a :: alts, i, s => by
+    unfold parseChoice
+    apply NilFail.bind (wrap_nilfail hmz hnf a _)
+    intro v ok s1 _
+    cases ok with
+    | true => simp [Outcome.NilFail]
+    | false => simp only [Bool.false_eq_true, if_false]; exact choice_nilfail line col alts _ _
+
+theorem loop_nilfail (e : Expr) : ∀ (k : Nat) (s : PState) (acc : List Val), (parseLoop E rec e k s acc).NilFail
+  | 0, _, _ => by simp [parseLoop, Outcome.NilFail]
+  | k + 1, s, acc => by
+    unfold parseLoop
+    apply NilFail.bind (wrap_nilfail hmz hnf e _)
+    intro v ok s1 _
+    cases ok with
+    | true => simp only [if_true]; exact loop_nilfail e k _ _
+    | false => simp only [Bool.false_eq_true, if_false]; split <;> simp [Outcome.NilFail]
+
+theorem throw_nilfail (label : String) : ∀ (frames : List (List (String × Expr))) (s : PState),
+    (parseThrow E rec label frames s).NilFail
+  | [], _ => by simp [parseThrow, Outcome.NilFail]
+  | fr :: frs, s => by
+    unfold parseThrow
+    split
+    · apply NilFail.bind (wrap_nilfail hmz hnf _ _)
+      intro v ok s1 _
+      cases ok with
+      | true => simp [Outcome.NilFail]
+      | false => simp only [Bool.false_eq_true, if_false]; exact throw_nilfail label frs _
+    · exact throw_nilfail label frs _
+
+omit hmz hnf in
+theorem lit_nilfail (start : Savepoint) (want : String) (ic : Bool) : ∀ (rs : List Rune) (s : PState),
+    (parseLit E start want ic rs s).NilFail
+  | [], _ => by simp [parseLit, Outcome.NilFail]
+  | r :: rs, s => by
+    unfold parseLit
+    split
+    · simp [Outcome.NilFail]
+    · exact lit_nilfail start want ic rs _
+
+omit hmz hnf in
+theorem runCodeBlock_nilfail (blk : Nat) (s : PState) (k : BlockResult → PState → Outcome)
+    (hk : ∀ r s2, (k r s2).NilFail) : (runCodeBlock E blk s k).NilFail := by
+  unfold runCodeBlock
+  simp only []
+  split
+  · trivial
+  · exact hk _ _
+
+theorem rule_nilfail (r : Rule) (s : PState) : (parseRule E rec r s).NilFail := by
+  unfold parseRule
+  apply NilFail.bind (wrap_nilfail hmz hnf _ _)
+  intro v ok s1 h
+  cases ok with
+  | true => trivial
+  | false => exact h rfl
+
+end nilfail
+
+theorem ref_zeroOrOne (hp : Plain E) (hfr : ∀ e s, FrameInv E s (rec e s)) (href : Refines E rec srec)
+    (hnf : ∀ e s, (rec e s).NilFail)
+    (k id : Nat) (e1 : Expr) (s : PState) (hg : Good E s) :
+    abs (parseZeroOrOne E rec e1 s) = Spec.evalStep E srec k (ctxOf s) (.zeroOrOne id e1) (envOf s) s.pt (absW s) := by
+  unfold parseZeroOrOne
+  simp only [Spec.evalStep]
+  have hcf := call_facts hp hfr href e1 (pushV s) hg.pushV
+  have hn := wrap_nilfail hp.nomemo hnf e1 (pushV s)
+  revert hcf hn
+  generalize parseExprWrap E rec e1 (pushV s) = o
+  cases o with
+  | oof => intro h _; simp only [CallFacts, ctxOf_pushV, envOf_pushV, absW_pushV, pushV.pt] at h; simp [Outcome.bind, abs, h]
+  | panic p s1 => intro h _; simp only [CallFacts, ctxOf_pushV, envOf_pushV, absW_pushV, pushV.pt] at h; simp [Outcome.bind, abs, h]
+  | done v ok s1 =>
+    cases ok with
+    | true =>
+      intro ⟨h1, h2, _⟩ _
+      simp only [ctxOf_pushV, envOf_pushV, absW_pushV, pushV.pt] at h1
+      simp [Outcome.bind, h1, abs, envOf_pop h2]
+    | false =>
+      intro ⟨h1, h2, _, h4⟩ hn
+      simp only [ctxOf_pushV, envOf_pushV, absW_pushV, pushV.pt] at h1 h4
+      simp only [Outcome.NilFail] at hn
+      simp [Outcome.bind, h1, abs, envOf_pop h2, h4, hn]
+
+theorem ref_recovery (hp : Plain E) (hfr : ∀ e s, FrameInv E s (rec e s)) (href : Refines E rec srec)
+    (k id : Nat) (e1 r : Expr) (labels : List String) (s : PState) (hg : Good E s) :
+    abs (parseRecovery E rec e1 r labels s) =
+      Spec.evalStep E srec k (ctxOf s) (.recovery id e1 r labels) (envOf s) s.pt (absW s) := by
+  unfold parseRecovery
+  simp only [Spec.evalStep]
+  have hcf := call_facts hp hfr href e1 (pushRecovery s labels r) (hg.congr rfl rfl rfl)
+  revert hcf
+  generalize parseExprWrap E rec e1 (pushRecovery s labels r) = o
+  have hc : ctxOf (pushRecovery s labels r) =
+      { ctxOf s with handlers := (labels.map (fun l => (l, r))).reverse :: (ctxOf s).handlers } := rfl
+  cases o with
+  | oof => intro h; simp only [CallFacts, hc, envOf_pushRecovery, absW_pushRecovery, pushRecovery.pt] at h; simp [Outcome.bind, abs, h]
+  | panic p s1 => intro h; simp only [CallFacts, hc, envOf_pushRecovery, absW_pushRecovery, pushRecovery.pt] at h; simp [Outcome.bind, abs, h]
+  | done v ok s1 =>
+    cases ok with
+    | true =>
+      intro ⟨h1, _, _⟩
+      simp only [hc, envOf_pushRecovery, absW_pushRecovery, pushRecovery.pt] at h1
+      simp [Outcome.bind, h1, abs]
+    | false =>
+      intro ⟨h1, _, _, _⟩
+      simp only [hc, envOf_pushRecovery, absW_pushRecovery, pushRecovery.pt] at h1
+      simp [Outcome.bind, h1, abs]
+
+
+theorem ref_action (hp : Plain E) (hfr : ∀ e s, FrameInv E s (rec e s)) (href : Refines E rec srec)
+    (k id blk : Nat) (e1 : Expr) (s : PState) (hg : Good E s) :
+    abs (parseAction E rec blk e1 s) = Spec.evalStep E srec k (ctxOf s) (.action id blk e1) (envOf s) s.pt (absW s) := by
+  unfold parseAction
+  simp only [Spec.evalStep]
+  have hcf := call_facts hp hfr href e1 s hg
+  revert hcf
+  generalize parseExprWrap E rec e1 s = o
+  cases o with
+  | oof => intro h; simp only [CallFacts] at h; simp [Outcome.bind, abs, h]
+  | panic p s1 => intro h; simp only [CallFacts] at h; simp [Outcome.bind, abs, h]
+  | done v ok s1 =>
+    cases ok with
+    | false =>
+      intro ⟨h1, _, _, _⟩
+      simp [Outcome.bind, h1, abs]
+    | true =>
+      intro ⟨h1, h2, _⟩
+      simp only [Outcome.bind, h1, if_true]
+      generalize hs2 : ({ s1 with curPos := s.pt.pos, curText := sliceFrom E s1 s.pt } : PState) = s2
+      have a1 : envOf s2 = envOf s1 := by subst hs2; rfl
+      have a2 : s2.pt = s1.pt := by subst hs2; rfl
+      have a3 : absW s2 = { absW s1 with curPos := s.pt.pos, curText := Spec.slice E s.pt s1.pt } := by
+        subst hs2; rfl
+      have a4 : ctxOf s2 = ctxOf s := by subst hs2; exact h2.ctx
+      have a5 : s2.state = s1.state := by subst hs2; rfl
+      obtain ⟨hr, hw⟩ := callBlock_spec (E := E) blk s2
+      rw [a1, a2, a3] at hr hw
+      rw [← hr, ← hw]
+      cases (callBlock E blk s2).1.panic with
+      | some p => simp [abs]
+      | none =>
+        simp only [abs, absW_restoreState, absW_addErrAtOpt, envOf_restoreState, envOf_addErrAtOpt, envOf_callBlock,
+          ctxOf_callBlock, a1, a2, a4, a5]
+        simp [a2]
+        try rfl
+
+theorem ruleWrap_eq (hp : Plain E) (k : Nat) (name : String) (r : Rule) (hf : E.findRule name = some r) (s : PState) :
+    parseRuleWrap E rec k r s = parseRule E rec r s := by
+  obtain ⟨h1, h2⟩ := hp.nolr name r hf
+  unfold parseRuleWrap
+  simp [hp.nomemo, h1]
+
+theorem ref_ruleRef (hp : Plain E) (hfr : ∀ e s, FrameInv E s (rec e s)) (href : Refines E rec srec)
+    (k id : Nat) (name : String) (s : PState) (hg : Good E s) :
+    abs (parseRuleRef E rec k name s) = Spec.evalStep E srec k (ctxOf s) (.ruleRef id name) (envOf s) s.pt (absW s) := by
+  unfold parseRuleRef
+  simp only [Spec.evalStep]
+  by_cases hn : name = ""
+  · simp [hn, abs]
+  · simp only [hn, if_false]
+    cases hf : E.findRule name with
+    | none => simp [abs, absW_addErr]
+    | some r =>
+      simp only []
+      rw [ruleWrap_eq hp k name r hf]
+      unfold parseRule
+      simp only []
+      generalize hs0 : ({ s with rstack := r :: s.rstack } : PState) = s0
+      have b1 : Good E s0 := by subst hs0; exact hg.congr rfl rfl rfl
+      have b2 : ctxOf (pushV s0) = { ctxOf s with rule := some r } := by subst hs0; rfl
+      have b3 : absW s0 = absW s := by subst hs0; rfl
+      have b4 : s0.pt = s.pt := by subst hs0; rfl
+      have b5 : s0.vstack = s.vstack := by subst hs0; rfl
+      have hcf := call_facts hp hfr href r.expr (pushV s0) b1.pushV
+      revert hcf
+      generalize parseExprWrap E rec r.expr (pushV s0) = o
+      cases o with
+      | oof => intro h; simp only [CallFacts, b2, envOf_pushV, absW_pushV, pushV.pt, b3, b4] at h; simp [Outcome.bind, abs, h]
+      | panic p s1 => intro h; simp only [CallFacts, b2, envOf_pushV, absW_pushV, pushV.pt, b3, b4] at h; simp [Outcome.bind, abs, h]
+      | done v ok s1 =>
+        have he : ∀ (h2 : Framed E (RT.pushV s0) ok s1), (popV s1).vstack.headD [] = envOf s := by
+          intro h2; rw [popV_vstack_of_framed h2, b5]; rfl
+        cases ok with
+        | true =>
+          intro ⟨h1, h2, _⟩
+          simp only [b2, envOf_pushV, absW_pushV, pushV.pt, b3, b4] at h1
+          simp only [Outcome.bind, h1, abs]
+          have := he h2
+          simp [envOf] at this ⊢
+          exact ⟨this, rfl⟩
+        | false =>
+          intro ⟨h1, h2, _, _⟩
+          simp only [b2, envOf_pushV, absW_pushV, pushV.pt, b3, b4] at h1
+          simp only [Outcome.bind, h1, abs]
+          have := he h2
+          simp [envOf] at this ⊢
+          exact ⟨this, rfl⟩
+
+
+theorem loop_fail_facts (hp : Plain E) (hfr : ∀ e s, FrameInv E s (rec e s)) (href : Refines E rec srec) (e : Expr) :
+    ∀ (k : Nat) (s : PState) (acc : List Val) (v : Val) (s' : PState), Good E s →
+      parseLoop E rec e k s acc = .done v false s' → acc = [] ∧ s'.pt = s.pt ∧ envOf s' = envOf s
+  | 0, _, _, _, _, _ => by simp [parseLoop]
+  | k + 1, s, acc, v, s', hg => by
+    unfold parseLoop
+    simp only []
+    have hcf := call_facts hp hfr href e (pushV s) hg.pushV
+    revert hcf
+    generalize parseExprWrap E rec e (pushV s) = o
+    cases o with
+    | oof => intro _ h; simp [Outcome.bind] at h
+    | panic p s1 => intro _ h; simp [Outcome.bind] at h
+    | done v1 ok s1 =>
+      cases ok with
+      | true =>
+        intro ⟨_, h2, _⟩ h
+        simp only [Outcome.bind, if_true] at h
+        have := (loop_fail_facts hp hfr href e k (popV s1) (v1 :: acc) v s' (hg.pop h2) h).1
+        cases this
+      | false =>
+        intro ⟨_, h2, _, h4⟩ h
+        simp only [Outcome.bind, Bool.false_eq_true, if_false] at h
+        split at h
+        · rename_i hemp
+          simp only [Outcome.done.injEq] at h
+          obtain ⟨_, _, rfl⟩ := h
+          refine ⟨by simpa using hemp, by simpa using h4, envOf_pop h2⟩
+        · simp at h
+
+theorem ref_zeroOrMore (hp : Plain E) (hfr : ∀ e s, FrameInv E s (rec e s)) (href : Refines E rec srec)
+    (k id : Nat) (e1 : Expr) (s : PState) (hg : Good E s) :
+    abs (parseZeroOrMore E rec k e1 s) = Spec.evalStep E srec k (ctxOf s) (.zeroOrMore id e1) (envOf s) s.pt (absW s) := by
+  unfold parseZeroOrMore
+  simp only [Spec.evalStep]
+  have h := ref_loop hp hfr href (ctxOf s) e1 k s [] hg rfl
+  have hf := loop_fail_facts hp hfr href e1 k s []
+  rw [← h]
+  revert hf
+  generalize parseLoop E rec e1 k s [] = o
+  cases o with
+  | oof => intro _; simp [Outcome.bind, abs]
+  | panic p s1 => intro _; simp [Outcome.bind, abs]
+  | done v ok s1 =>
+    cases ok with
+    | true => intro _; simp [Outcome.bind, abs]
+    | false =>
+      intro hf
+      obtain ⟨_, h1, h2⟩ := hf v s1 hg rfl
+      simp [Outcome.bind, abs, h1, h2]
+
+theorem ref_litE (k id : Nat) (val : List Rune) (ic : Bool) (want : String) (s : PState) :
+    abs (parseLit E s.pt want ic val s) = Spec.evalStep E srec k (ctxOf s) (.lit id val ic want) (envOf s) s.pt (absW s) := by
+  simp only [Spec.evalStep]
+  have h := ref_lit (E := E) (ctxOf s) s.pt want ic val s rfl
+  revert h
+  generalize parseLit E s.pt want ic val s = o
+  cases o with
+  | oof => simp
+  | panic p s1 => simp
+  | done v ok s1 =>
+    cases ok with
+    | true => simp only []; intro ⟨h1, h2, h3⟩; simp [h1, h2, h3, abs]
+    | false => simp only []; intro ⟨h1, h3⟩; simp [h1, h3, abs]
+
+/-- one level: the runtime's type switch computes the specification's `evalStep` -/
+theorem ref_body (hp : Plain E) (hfr : ∀ e s, FrameInv E s (rec e s)) (href : Refines E rec srec)
+    (hnf : ∀ e s, (rec e s).NilFail) (k : Nat) (e : Expr) (s : PState) (hg : Good E s) :
+    abs (parseExprBody E rec k e s) = Spec.evalStep E srec k (ctxOf s) e (envOf s) s.pt (absW s) := by
+  cases e with
+  | action id blk e1 => exact ref_action hp hfr href k id blk e1 s hg
+  | andCode id blk => exact ref_andCode k id blk s
+  | notCode id blk => exact ref_notCode k id blk s
+  | stateCode id blk => exact ref_stateCode k id blk s
+  | and id e1 => exact ref_and hp hfr href k id e1 s hg
+  | not id e1 => exact ref_not hp hfr href k id e1 s hg
+  | any id => exact ref_any k id s
+  | cls id c => exact ref_cls k id c s
+  | choice id line col alts =>
+    simp only [parseExprBody, Spec.evalStep]
+    exact ref_choice hp hfr href (ctxOf s) line col alts 0 s hg rfl
+  | labeled id l e1 => exact ref_labeled hp hfr href k id l e1 s hg
+  | lit id val ic want => exact ref_litE k id val ic want s
+  | oneOrMore id e1 =>
+    simp only [parseExprBody, Spec.evalStep]
+    exact ref_loop hp hfr href (ctxOf s) e1 k s [] hg rfl
+  | zeroOrMore id e1 => exact ref_zeroOrMore hp hfr href k id e1 s hg
+  | zeroOrOne id e1 => exact ref_zeroOrOne hp hfr href hnf k id e1 s hg
+  | recovery id e1 r labels => exact ref_recovery hp hfr href k id e1 r labels s hg
+  | ruleRef id name => exact ref_ruleRef hp hfr href k id name s hg
+  | seq id es =>
+    simp only [parseExprBody, Spec.evalStep]
+    exact ref_seq hp hfr href (ctxOf s) s.pt s.state es s [] hg rfl
+  | throw id label =>
+    simp only [parseExprBody, Spec.evalStep]
+    exact ref_throw hp hfr href (ctxOf s) label s.recoveryStack s hg rfl
+
+
+theorem body_nilfail (hp : Plain E) (hnf : ∀ e s, (rec e s).NilFail) (k : Nat) (e : Expr) (s : PState) :
+    (parseExprBody E rec k e s).NilFail := by
+  have hw := wrap_nilfail hp.nomemo hnf
+  cases e with
+  | action id blk e1 =>
+    simp only [parseExprBody, parseAction]
+    apply NilFail.bind (hw _ _)
+    intro v ok s1 h
+    cases ok with
+    | true => simp only [if_true]; split <;> trivial
+    | false => exact h rfl
+  | andCode id blk =>
+    simp only [parseExprBody, parseAndCode]
+    apply runCodeBlock_nilfail
+    intro r s2; cases r.retB <;> simp [Outcome.NilFail]
+  | notCode id blk =>
+    simp only [parseExprBody, parseNotCode]
+    apply runCodeBlock_nilfail
+    intro r s2; cases r.retB <;> simp [Outcome.NilFail]
+  | stateCode id blk =>
+    simp only [parseExprBody, parseStateCode]
+    split
+    · trivial
+    · exact runCodeBlock_nilfail blk s _ (fun _ _ => trivial)
+  | and id e1 =>
+    simp only [parseExprBody, parseAnd]
+    exact NilFail.bind (hw _ _) (fun v ok s1 _ => by cases ok <;> simp [Outcome.NilFail])
+  | not id e1 =>
+    simp only [parseExprBody, parseNot]
+    exact NilFail.bind (hw _ _) (fun v ok s1 _ => by cases ok <;> simp [Outcome.NilFail])
+  | any id =>
+    simp only [parseExprBody, parseAny, matchOne]
+    split <;> simp [Outcome.NilFail]
+  | cls id c =>
+    simp only [parseExprBody, parseCharClass, matchOne]
+    repeat' split
+    all_goals simp [Outcome.NilFail]
+  | choice id line col alts => exact choice_nilfail hp.nomemo hnf line col alts 0 s
+  | labeled id l e1 =>
+    simp only [parseExprBody, parseLabeled]
+    exact NilFail.bind (hw _ _) (fun v ok s1 h => by cases ok <;> simp [Outcome.NilFail]; exact h rfl)
+  | lit id val ic want => exact lit_nilfail _ _ _ _ _
+  | oneOrMore id e1 => exact loop_nilfail hp.nomemo hnf e1 k s []
+  | zeroOrMore id e1 =>
+    simp only [parseExprBody, parseZeroOrMore]
+    exact NilFail.bind (loop_nilfail hp.nomemo hnf e1 k s []) (fun v ok s1 _ => by cases ok <;> simp [Outcome.NilFail])
+  | zeroOrOne id e1 =>
+    simp only [parseExprBody, parseZeroOrOne]
+    exact NilFail.bind (hw _ _) (fun v ok s1 _ => by simp [Outcome.NilFail])
+  | recovery id e1 r labels =>
+    simp only [parseExprBody, parseRecovery]
+    exact NilFail.bind (hw _ _) (fun v ok s1 h => by cases ok <;> simp [Outcome.NilFail]; exact h rfl)
+  | ruleRef id name =>
+    simp only [parseExprBody, parseRuleRef]
+    split
+    · trivial
+    · split
+      · simp [Outcome.NilFail]
+      · rename_i r hf
+        rw [ruleWrap_eq hp k name r hf]
+        exact rule_nilfail hp.nomemo hnf r s
+  | seq id es => exact seq_nilfail hp.nomemo hnf _ _ es s []
+  | throw id label => exact throw_nilfail hp.nomemo hnf label _ s
+
 end
+
+theorem step_plain {E : Env} (hp : Plain E) (rec : Expr → PState → Outcome) (k : Nat) (e : Expr) (s : PState) :
+    parseExprStep E rec k e s = parseExprBody E rec k e (bump s) := by
+  unfold parseExprStep overBudget
+  simp [hp.nobudget]
+
+theorem parseExpr_nilfail {E : Env} (hp : Plain E) : ∀ (f : Nat) (e : Expr) (s : PState), (parseExpr E f e s).NilFail
+  | 0, _, _ => trivial
+  | f + 1, e, s => by
+    show (parseExprStep E (parseExpr E f) f e s).NilFail
+    rw [step_plain hp]
+    exact body_nilfail hp (parseExpr_nilfail hp f) f e (bump s)
+
+/-- **Refinement theorem.** In the plain configuration (no memoization, no budget, no left-recursive
+    rules) the runtime model IS the PEG specification: for every grammar, code environment, input,
+    fuel, expression and reachable state, the outcome of `parseExpr` — success or failure, value,
+    end position, labels in scope, stores, recorded errors and the complete trace of code-block
+    invocations with the context each one saw — is the one `Spec.eval` prescribes. -/
+theorem parseExpr_refines {E : Env} (hp : Plain E) : ∀ (f : Nat), Refines E (parseExpr E f) (Spec.eval E f)
+  | 0 => fun _ _ _ => rfl
+  | f + 1 => by
+    intro e s hg
+    show abs (parseExprStep E (parseExpr E f) f e s) = Spec.evalStep E (Spec.eval E f) f (ctxOf s) e (envOf s) s.pt (absW s)
+    rw [step_plain hp]
+    have hg' : Good E (bump s) := hg.congr rfl rfl rfl
+    have := ref_body hp (parseExpr_frame E f) (parseExpr_refines hp f) (parseExpr_nilfail hp f) f e (bump s) hg'
+    simpa using this
+
 end RT
 end PV
